@@ -66,6 +66,13 @@ def rotateSequence (s : Str) : Option Str :=
 /-- Go `strings.ReplaceAll(s, "U", "T")` -/
 def uToT (s : Str) : Str := s.map fun c => if c = 'U' then 'T' else c
 
+/-- what `Hash` does to one letter before the checks: upper-case, and `U → T` under RNA -/
+def normC (ty : String) (c : Char) : Char :=
+  if ty = "RNA" then (if c.toUpper = 'U' then 'T' else c.toUpper) else c.toUpper
+
+/-- what `Hash` does to the sequence before the checks (the first two assignments of `Hash`) -/
+def norm (ty : String) (s : Str) : Str := if ty = "RNA" then uToT (upper s) else upper s
+
 def nucleotideLetters : Str := "ATUGCYRSWKMBDHVNZ".toList
 def proteinLetters : Str := "ACDEFGHIKLMNPQRSTVWYUO*BXZ".toList
 
@@ -93,6 +100,9 @@ def tag (ty : String) (circular ds : Bool) : Str :=
 /-- `seqhash.Hash`, parametrised by the rotation function and the digest -/
 def hashWith (rot : Str → Option Str) (blake : List UInt8 → List UInt8)
     (s : Str) (ty : String) (circular ds : Bool) : Outcome Str :=
+  -- first statement of Hash: `for _, char := range sequence { if char > unicode.MaxASCII { return "", err } }`
+  -- (before upper-casing, which would fold U+017F to S and U+0131 to I)
+  if s.any (fun c => c.toNat > 127) then .err else
   let s := upper s
   let s := if ty = "RNA" then uToT s else s
   if ty ≠ "DNA" ∧ ty ≠ "RNA" ∧ ty ≠ "PROTEIN" then .err else
@@ -107,7 +117,7 @@ def hashWith (rot : Str → Option Str) (blake : List UInt8 → List UInt8)
 /-- the model of the code: rotation by the Booth loop -/
 def hash := hashWith rotateSequence
 
-/-- the same with the arg-min spec of the least rotation (what C04/C05 are stated over, modulo C12) -/
+/-- the same with the arg-min spec of the least rotation (what C04/C05 are first stated over; equal to `hash` by C12's `booth_least`) -/
 def hashSpec := hashWith (fun s => some (Spec.leastRotation s))
 
 end PolyVerif.Seqhash
